@@ -51,21 +51,34 @@ theorem renderFieldGo_length (minW : Nat) (minus plus : Option Nat) (hm : FitsW 
     have hph := hwf ph (by simp)
     simp only [renderFieldGo]
     rw [ih _ _ (fun q hq => hwf q (List.mem_cons_of_mem _ hq))]
-    have hfield : (match ph.ph with
-        | some 1 => formatLineNumber minus (ph.align.getD .center) (match ph.width with | some w => max w minW | none => minW)
-        | some 2 => formatLineNumber plus (ph.align.getD .center) (match ph.width with | some w => max w minW | none => minW)
-        | _ => []).length = fieldW minW ph := by
-      obtain ⟨_, _, _, h4⟩ := hph
-      have hge : minW ≤ (match ph.width with | some w => max w minW | none => minW) := by
-        cases ph.width <;> simp <;> omega
-      rcases h4 with h | h | h
-      · simp [h, fieldW]
-      · simp only [h, fieldW]; exact formatLineNumber_length _ _ _ _ hge hm
-      · simp only [h, fieldW]; exact formatLineNumber_length _ _ _ _ hge hp
-    simp only [List.length_append, hfield, List.map_cons, List.sum_cons]
-    cases rest with
-    | nil => simp
-    | cons q rest' => simp [List.getLast?_cons_cons]; omega
+    obtain ⟨_, _, _, h4⟩ := hph
+    have hlast : (match rest.getLast? with | some l => l.suf.length | none => ph.suf.length) =
+        (match (ph :: rest).getLast? with | some l => l.suf.length | none => suf.length) := by
+      cases rest with
+      | nil => simp
+      | cons q rest' =>
+        rw [List.getLast?_cons_cons]
+        cases hq : (q :: rest').getLast? with
+        | none => simp [List.getLast?_eq_none_iff] at hq
+        | some l => rfl
+    rw [hlast]
+    simp only [List.length_append, List.map_cons, List.sum_cons]
+    rcases h4 with h | h | h
+    · simp only [h, fieldW, List.length_nil]; omega
+    · cases hw : ph.width with
+      | none =>
+        simp only [h, hw, fieldW]
+        rw [formatLineNumber_length _ _ minW minW (Nat.le_refl _) hm]; omega
+      | some w =>
+        simp only [h, hw, fieldW]
+        rw [formatLineNumber_length _ _ (max w minW) minW (by omega) hm]; omega
+    · cases hw : ph.width with
+      | none =>
+        simp only [h, hw, fieldW]
+        rw [formatLineNumber_length _ _ minW minW (Nat.le_refl _) hp]; omega
+      | some w =>
+        simp only [h, hw, fieldW]
+        rw [formatLineNumber_length _ _ (max w minW) minW (by omega) hp]; omega
 
 theorem sum_map_concat (f : PH → Nat) (l : List PH) (x : PH) : ((l ++ [x]).map f).sum = (l.map f).sum + f x := by
   induction l with
@@ -96,8 +109,8 @@ theorem formattedWidth_eq (minW : Nat) (fd : List PH) (hwf : ∀ ph ∈ fd, WfPH
         (match fd.getLast? with | some l => l.suf.length | none => 0) := by
   rcases List.eq_nil_or_concat fd with rfl | ⟨init, last, rfl⟩
   · rfl
-  · have hl : (init ++ [last]).getLast? = some last := by simp
-    have hfun : (fun p => (phWidth minW p).1) = fun p => (phWidth minW p).1 := rfl
+  · simp only [List.concat_eq_append] at hwf ⊢
+    have hl : (init ++ [last]).getLast? = some last := by simp
     simp only [formattedWidth, hl, List.reverse_append, List.reverse_cons, List.reverse_nil, List.nil_append,
       List.singleton_append, List.drop_one, List.tail_cons]
     rw [sum_map_reverse, sum_map_concat]
